@@ -223,7 +223,7 @@ pub fn check_classification(p: &Program, tree: &sv::SyntaxTree, text: &str) -> R
 
 /// Oracle (4): an enum node that consists of nothing but one keyword is the variant named after that keyword
 /// (`chandle` -> DataType::Chandle, `join_any` -> JoinKeyword::JoinAny, `ns` -> TimeUnit::NS): compared without
-/// case and underscores; of the terminals that are not words only "+", "-", "$" and ";" (Plus, Minus, Dollar, Empty)
+/// case and underscores; of the terminals that are not words only "+", "-", "$" and ";" (Plus, Minus, Dollar, Empty or Null)
 /// are checked, the others ("1step", "\"DPI-C\"", ".*", "#0") have spelled-out variant names and are left aside.
 pub fn check_keyword_variants(tree: &sv::SyntaxTree, text: &str) -> Result<usize, (String, serde_json::Value)> {
     let norm = |s: &str| s.chars().filter(|c| *c != '_').map(|c| c.to_ascii_lowercase()).collect::<String>();
@@ -236,7 +236,7 @@ pub fn check_keyword_variants(tree: &sv::SyntaxTree, text: &str) -> Result<usize
                 "+" => &["plus"],
                 "-" => &["minus"],
                 "$" => &["dollar"],
-                ";" => &["empty"],
+                ";" => &["empty", "null"],
                 _ => continue,
             };
             n += 1;
